@@ -21,6 +21,7 @@ def generate(repo):
     items = {}
     tail_repair = ghost = replay_index = False
     put_order_ok = ckpt_order_ok = True
+    meta_first = False
     try:
         wal = strip_comments(read(repo, "tensor_store/src/wal.rs"))
         _, body = find_fn(wal, "open", after=r"impl\s+TensorWal\b")
@@ -51,7 +52,8 @@ def generate(repo):
         i1 = body.find("WalEntry::EmbeddingSet")
         i2 = body.find("WalEntry::MetadataSet")
         i3 = body.rfind("self.put(key, value)")
-        put_order_ok = 0 <= i1 < i2 < i3
+        put_order_ok = 0 <= i1 < i3 and 0 <= i2 < i3
+        meta_first = 0 <= i2 < i1
         items["put_durable step order"] = "translated"
     except Exception as ex:
         items["put_durable step order"] = "miss:%s" % ex
@@ -72,10 +74,12 @@ def generate(repo):
         "Definition gen_ghost_fixed : bool := %s.\n"
         "(* SlabRouter::apply_wal_entry, MetadataSet arm *)\n"
         "Definition gen_replay_index_fixed : bool := %s.\n"
-        "(* put_durable: EmbeddingSet logged, then MetadataSet, then the in-memory put *)\n"
+        "(* put_durable: both records are logged before the in-memory put *)\n"
         "Definition gen_put_order_ok : bool := %s.\n"
+        "(* put_durable: MetadataSet is logged before EmbeddingSet *)\n"
+        "Definition gen_put_meta_first : bool := %s.\n"
         "(* checkpoint: save_to_file, then wal.append(marker), then wal.truncate *)\n"
         "Definition gen_ckpt_order_ok : bool := %s.\n"
-        % (_b(tail_repair), _b(ghost), _b(replay_index), _b(put_order_ok), _b(ckpt_order_ok))
+        % (_b(tail_repair), _b(ghost), _b(replay_index), _b(put_order_ok), _b(meta_first), _b(ckpt_order_ok))
     )
     return text, items
